@@ -88,6 +88,12 @@ class RuntimeEffects:
             a = e.attr
             if a in meths and any(dotted(d) == "property" for d in meths[a].decorator_list):
                 return self._prop(clsq, a, stack, depth)
+        if isinstance(e, ast.IfExp):
+            a_, b_ = self._classify(clsq, e.body, stack, env, eff, depth), self._classify(clsq, e.orelse, stack, env, eff, depth)
+            if a_ == b_:
+                return a_
+            if {a_, b_} == {"top", "expr:self"} and src(e.test) == stack:
+                return "top"  # the top, or the stack object itself when empty
         if isinstance(e, ast.Tuple):
             return "tuple:" + ",".join(self._classify(clsq, x, stack, env, eff, depth) for x in e.elts)
         if isinstance(e, ast.BoolOp):
@@ -99,13 +105,17 @@ class RuntimeEffects:
         # `if self.stack: return self.stack[-1] else: return self` -> 'top'
         rets = [n for n in walk_func(fn) if isinstance(n, ast.Return)]
         kinds = set()
+
+        def arms(e):
+            return arms(e.body) + arms(e.orelse) if isinstance(e, ast.IfExp) else [e]
         for r in rets:
-            if isinstance(r.value, ast.Subscript) and src(r.value.value) == stack and const(r.value.slice) == -1:
-                kinds.add("top")
-            elif src(r.value) == "self":
-                kinds.add("self-when-empty")
-            else:
-                kinds.add("expr:" + src(r.value))
+            for v in arms(r.value):
+                if isinstance(v, ast.Subscript) and src(v.value) == stack and const(v.slice) == -1:
+                    kinds.add("top")
+                elif src(v) == "self":
+                    kinds.add("self-when-empty")
+                else:
+                    kinds.add("expr:" + src(v))
         if kinds <= {"top", "self-when-empty"} and "top" in kinds:
             return "top"
         return "|".join(sorted(kinds))
